@@ -342,6 +342,24 @@ func init() {
 			"soundness direction only: the handler is reached only if the oracle admits (rejections of admissible requests are not flagged)",
 		},
 	}
+	cachePkgs := []string{"github.com/gofiber/fiber/v3", "github.com/gofiber/fiber/v3/internal/memory"}
+	props["C14"] = PropSpec{
+		ID: "C14",
+		Runs: []HarnessRun{
+			{Rel: "middleware/cache", Dir: "cache", Entry: "VH_C14_heap", Cases: tierCases(rangeInts(0, 16), rangeInts(0, 16)), Reach: []string{"put", "remove"}, MaxPaths: 200000, ExtraPkgs: cachePkgs},
+			{Rel: "middleware/cache", Dir: "cache", Entry: "VH_C14_sequential", Cases: tierCases([]int{0, 5, 10, 15}, rangeInts(0, 16)), Reach: []string{"hit", "miss"}, MaxPaths: 400000, ExtraPkgs: cachePkgs, Repeat: 1},
+			{Rel: "middleware/cache", Dir: "cache", Entry: "VH_C14_concurrent", Cases: tierCases([]int{1, 3, 5, 7, 11, 15}, rangeInts(0, 16)), Reach: []string{"joined"}, MaxPaths: 200000, ExtraPkgs: cachePkgs, Repeat: 3},
+		},
+		Bounds: map[string]string{
+			"quick":    "indexedHeap: one put / remove(idx) / removeFirst from every valid state with <= 3 slots (any idx permutation, symbolic expirations in heap order, arbitrary stale index cells); sequential: 3 requests over 2 keys x {GET, POST} x {none, no-cache, no-store} x 5 origin statuses x symbolic body (0..2 bytes) with gaps 0..3 s against Expiration 2 s, invalidator, MaxBytes 3, StoreResponseHeaders, memory store / external-store stub; concurrent: 2 requests (same / different key) after an expired entry with MaxBytes eviction, every interleaving at storage / origin / blocking-lock boundaries",
+			"thorough": "all 16 sequential and 16 concurrent configurations (incl. an invalidator firing for both concurrent requests)",
+		},
+		Assumptions: []string{
+			"the cache's coarse timestamp goroutine is woken by every advance of the virtual clock (engine); natively the replay really sleeps",
+			"the heap invariant used for the inductive step: heap order on exp, indices[] inverse to the live entries' idx, idx values of live and parked slots a permutation of 0..maxidx-1",
+			"ExpirationGenerator, custom KeyGenerator and Next are not exercised",
+		},
+	}
 	props["SMOKEFAIL"] = PropSpec{
 		ID: "SMOKEFAIL",
 		Runs: []HarnessRun{
